@@ -80,7 +80,7 @@ theorem sameOutcome_done (c : List Entry) (C C' : Vm.Chunk) (a b : Vm.State)
       b.blocks = a.blocks ∧ b.stack.map (·.1) = a.stack.map (·.1) ∧
       (∀ n, b.scope.getValue n = a.scope.getValue n) := by
   obtain ⟨rfl, _⟩ := h
-  refine ⟨rfl, rfl, rfl, rfl, ?_, fun n => by simp⟩
+  refine ⟨rfl, rfl, rfl, rfl, ?_, fun n => by rw [← mapStateP_id]; simp⟩
   simp [mapState, mapSlot, List.map_map, Function.comp_def]
 
 section chunk
@@ -270,8 +270,22 @@ the parser rejects the other shapes at parser.rs:1516 and 1604) —, `C07Compile
 gives the `Vm.verify` table for every chunk of every scoped template; `C09WF.optimize_preserves_vverify`
 carries it to the optimised chunk.
 
-The proof would be an induction on `fuel.depth` with `optimize_preserves_runLoop` at each level,
-generalised to two environments (`RecOK` for `interp env` / `interp env'`). -/
+What a proof needs beyond the single-chunk theorems (an induction on `fuel.depth` with
+`optimize_preserves_runLoop` at each level does NOT go through as it stands):
+1. two environments: with `env' = env` with every chunk mapped by a function `o`, every arm that does
+   not call `interpret` satisfies `step … env' vm' c = step … env vm c` (everything it reads of the
+   environment is a field the mapping leaves alone, except `reportTargetOk`, which only needs the
+   same template names); the nested arms then call `rec' (o-mapped vm) (o ch)`;
+2. a state holds chunks (`State.blocks`, the lineages `RenderBlock` pushes), so the state relation
+   has to map them through `o` as well;
+3. `RecOK.same` is too strong for a callee that is a different chunk: the state relation has to
+   become a RELATION by frames — the slots and loops a block chunk inherits from its caller
+   (`RenderBlock`, `super()`) are renamed by the CALLER's `index_map`, its own by the CALLEE's, and
+   the loops in the include parent chain (only read for values) are unconstrained — where it is now
+   the FUNCTION `mapState f` (used as an equation in every arm);
+4. that a callee never inspects an inherited slot's span or an inherited loop's `end_ip` is the
+   framed soundness of `Vm.verify` (Lemmas/VmSim `Rel c base a st`), to be carried through the
+   simulation as an additional invariant (hence the `Vm.verify` hypothesis above). -/
 def optimize_preserves_render : Prop :=
   ∀ (dec : Instr → Option Vm.VInstr), DecOK dec →
   ∀ (env env' : Vm.Env), OptEnv dec env env' →
